@@ -93,81 +93,181 @@ func TestVerifC13Util(t *testing.T) {
 	}
 
 	// ---- DirCleanUpPaths on real trees ---------------------------------------------------------
+	// The trees hold, next to and below the rego files, everything else a directory can hold: hidden files, data files,
+	// sub-directories (empty, with content, hidden), symbolic links to files and to directories.  The observation
+	// carries the full listing with the kind of every entry.
+	w.Flush()
+	cleanupTrees(t, rng, thorough, emit)
+}
+
+type centry struct {
+	Path string `json:"path"`
+	Kind string `json:"kind"` // file | dir | symlink (as os.Lstat sees it)
+	To   string `json:"to,omitempty"`
+}
+
+type ctree struct {
+	Entries     []centry `json:"entries"` // paths normalised to /R/...
+	Roots       []string `json:"roots"`
+	Target      string   `json:"target"`
+	RemoveFirst bool     `json:"removed_first"`
+}
+
+func cleanupTrees(t *testing.T, rng *urng, thorough bool, emit func(any)) {
+	if rp := os.Getenv("VERIF_C13_REPLAY_CLEANUP"); rp != "" {
+		b, err := os.ReadFile(rp)
+		if err != nil {
+			t.Fatal(err)
+		}
+		var ct ctree
+		if err := json.Unmarshal(b, &ct); err != nil {
+			t.Fatal(err)
+		}
+		runCleanup(t, ct, emit)
+		return
+	}
 	dirU := []string{"a", "a/b", "a/b/c", "a/d", "e", "e/f", "a/b/c/g"}
-	ntrees := 150
+	ntrees := 220
 	if thorough {
-		ntrees = 1500
+		ntrees = 2000
 	}
 	for i := 0; i < ntrees; i++ {
-		td := t.TempDir()
-		real, _ := filepath.EvalSymlinks(td)
-		norm := func(p string) string { return "/R" + strings.TrimPrefix(p, real) }
-		var files []string
+		ct := ctree{}
+		add := func(p, kind, to string) { ct.Entries = append(ct.Entries, centry{Path: "/R/" + p, Kind: kind, To: to}) }
+		var regos []string
 		// the workspace directory itself never becomes empty (the walk stops there)
-		os.WriteFile(filepath.Join(real, "keep.txt"), []byte("k"), 0o600)
+		add("keep.txt", "file", "")
+		rich := rng.below(3) > 0 // two trees in three carry bystanders
 		for _, d := range dirU {
 			if rng.below(3) == 0 {
 				continue
 			}
-			os.MkdirAll(filepath.Join(real, d), 0o755)
+			add(d, "dir", "")
 			for _, b := range []string{"x.rego", "y.rego"} {
 				if rng.below(3) == 0 {
-					p := filepath.Join(real, d, b)
-					os.WriteFile(p, []byte("x"), 0o600)
-					files = append(files, p)
+					add(d+"/"+b, "file", "")
+					regos = append(regos, "/R/"+d+"/"+b)
 				}
+			}
+			if !rich {
+				continue
+			}
+			if rng.below(5) == 0 {
+				add(d+"/"+[]string{".gitkeep", ".DS_Store", ".gitignore"}[rng.below(3)], "file", "")
+			}
+			if rng.below(7) == 0 {
+				add(d+"/"+[]string{"data.json", "README"}[rng.below(2)], "file", "")
+			}
+			if rng.below(8) == 0 {
+				add(d+"/sub", "dir", "")
+				if rng.below(2) == 0 {
+					add(d+"/sub/"+[]string{"data.json", ".gitkeep"}[rng.below(2)], "file", "")
+				}
+			}
+			if rng.below(10) == 0 {
+				add(d+"/.cache", "dir", "")
+				if rng.below(2) == 0 {
+					add(d+"/.cache/blob", "file", "")
+				}
+			}
+			if rng.below(9) == 0 {
+				add(d+"/"+[]string{"latest", ".current"}[rng.below(2)], "symlink", []string{"x.rego", "data.json", "../keep.txt"}[rng.below(3)])
+			}
+			if rng.below(14) == 0 {
+				add(d+"/up", "symlink", []string{"..", "."}[rng.below(2)])
 			}
 		}
 		if rng.below(3) == 0 {
-			p := filepath.Join(real, "top.rego")
-			os.WriteFile(p, []byte("x"), 0o600)
-			files = append(files, p)
+			add("top.rego", "file", "")
+			regos = append(regos, "/R/top.rego")
 		}
-		if len(files) == 0 {
+		if len(regos) == 0 {
 			continue
 		}
-		var roots []string
 		for _, r := range []string{"", "a", "a/b", "e", "a/b/c/g", "nonexistent/q"} {
 			if rng.below(4) == 0 {
-				roots = append(roots, filepath.Join(real, r))
-			}
-		}
-		target := files[rng.below(len(files))]
-		// the command removes the file first, then asks which directories became empty
-		removeFirst := rng.below(8) > 0
-		if removeFirst {
-			os.Remove(target)
-		}
-		var allF, allD []string
-		filepath.Walk(real, func(p string, info os.FileInfo, _ error) error {
-			if info.IsDir() {
-				allD = append(allD, norm(p))
-			} else {
-				allF = append(allF, norm(p))
-			}
-			return nil
-		})
-		sort.Strings(allF)
-		sort.Strings(allD)
-		got, err := DirCleanUpPaths(target, roots)
-		nroots := []string{}
-		for _, r := range roots {
-			nroots = append(nroots, norm(r))
-		}
-		ngot := []string{}
-		for _, g := range got {
-			ngot = append(ngot, norm(g))
-		}
-		// are the listed directories really removable in that order?
-		removable := true
-		if err == nil {
-			for _, g := range got {
-				if e := os.Remove(g); e != nil {
-					removable = false
+				if r == "" {
+					ct.Roots = append(ct.Roots, "/R")
+				} else {
+					ct.Roots = append(ct.Roots, "/R/"+r)
 				}
 			}
 		}
-		emit(map[string]any{"kind": "cleanup", "files": allF, "dirs": allD, "roots": nroots, "target": norm(target),
-			"removed_first": removeFirst, "got": ngot, "err": err != nil, "removable": removable})
+		ct.Target = regos[rng.below(len(regos))]
+		// the command removes the file first, then asks which directories became empty
+		ct.RemoveFirst = rng.below(8) > 0
+		runCleanup(t, ct, emit)
 	}
+}
+
+func runCleanup(t *testing.T, ct ctree, emit func(any)) {
+	td := t.TempDir()
+	real, _ := filepath.EvalSymlinks(td)
+	norm := func(p string) string { return "/R" + strings.TrimPrefix(p, real) }
+	denorm := func(p string) string { return real + strings.TrimPrefix(p, "/R") }
+	for _, e := range ct.Entries {
+		p := denorm(e.Path)
+		os.MkdirAll(filepath.Dir(p), 0o755)
+		switch e.Kind {
+		case "dir":
+			os.MkdirAll(p, 0o755)
+		case "symlink":
+			os.Symlink(e.To, p)
+		default:
+			os.WriteFile(p, []byte("x"), 0o600)
+		}
+	}
+	target := denorm(ct.Target)
+	if ct.RemoveFirst {
+		os.Remove(target)
+	}
+	// the listing as it is when the function is called
+	var entries []centry
+	filepath.Walk(real, func(p string, info os.FileInfo, _ error) error {
+		k := "file"
+		to := ""
+		switch {
+		case info.IsDir():
+			k = "dir"
+		case info.Mode()&os.ModeSymlink != 0:
+			k = "symlink"
+			to, _ = os.Readlink(p)
+		}
+		entries = append(entries, centry{Path: norm(p), Kind: k, To: to})
+		return nil
+	})
+	sort.Slice(entries, func(i, j int) bool { return entries[i].Path < entries[j].Path })
+	roots := []string{}
+	var rroots []string
+	for _, r := range ct.Roots {
+		roots = append(roots, r)
+		rroots = append(rroots, denorm(r))
+	}
+	got, err := DirCleanUpPaths(target, rroots)
+	ngot := []string{}
+	for _, g := range got {
+		ngot = append(ngot, norm(g))
+	}
+	// are the listed directories really removable in that order?  what is left in one that is not?
+	removable := true
+	blocked := []map[string]any{}
+	if err == nil {
+		if !ct.RemoveFirst {
+			os.Remove(target) // the function discounts the target: it is gone before the directories are removed
+		}
+		for _, g := range got {
+			if e := os.Remove(g); e != nil {
+				removable = false
+				left := []string{}
+				if des, e2 := os.ReadDir(g); e2 == nil {
+					for _, de := range des {
+						left = append(left, de.Name())
+					}
+				}
+				blocked = append(blocked, map[string]any{"dir": norm(g), "left": left})
+			}
+		}
+	}
+	emit(map[string]any{"kind": "cleanup", "entries": entries, "roots": roots, "target": ct.Target,
+		"removed_first": ct.RemoveFirst, "tree": ct, "got": ngot, "err": err != nil, "removable": removable, "blocked": blocked})
 }
